@@ -26,6 +26,19 @@ func setup() (*World, error) {
 	if _, err := w.loadAllSpecs(repoDir, verifDir); err != nil {
 		return nil, err
 	}
+	for _, n := range w.specFunOrd {
+		func() {
+			defer func() {
+				if r := recover(); r != nil {
+					err = fmt.Errorf("spec function %s: %v", n, r)
+				}
+			}()
+			w.resolveSpecFun(w.specFuns[n])
+		}()
+		if err != nil {
+			return nil, err
+		}
+	}
 	ts, err := evalTokenStrings()
 	if err != nil {
 		return nil, err
